@@ -467,6 +467,50 @@ func (g *gen) width() int {
 	return g.r.Intn(46)
 }
 
+// D20: widths at the ends of the int range, each with a small probability.  For the padding
+// operations (align, justify, table, twocol, deftable) the bottom of the range: math.MinInt,
+// math.MinInt+1 (= -math.MaxInt) and math.MinInt+k for k up to a line length n — there the unrepaired
+// `width - len` of AlignLineLeft/Right/Center and MakeTable wrapped around to a huge positive filler
+// count and the call did not return — never math.MaxInt (an output that wide cannot be produced);
+// for wrap, which pads nothing, both ends.
+func (g *gen) xwidth(w int, wrap bool, n int) int {
+	if !g.chance(0.01) {
+		return w
+	}
+	if wrap {
+		return []int{math.MaxInt, math.MaxInt - 1, math.MinInt}[g.r.Intn(3)]
+	}
+	if n > 200 {
+		n = 200
+	}
+	switch g.r.Intn(4) {
+	case 0:
+		return math.MinInt
+	case 1:
+		return math.MinInt + 1
+	case 2:
+		return math.MinInt + 1 + g.r.Intn(n+1)
+	}
+	return -math.MaxInt
+}
+func (g *gen) widthPad(n int) int { return g.xwidth(g.width(), false, n) }
+func (g *gen) widthWrap() int     { return g.xwidth(g.width(), true, 0) }
+
+// D21: InsertDefinitionsTableOpts had the same wrap-around of its own (operations.go
+// `rightWidth := width - leftWidth - minBetween`, then Wrap(def, rightWidth-2)): for a width within
+// longestTerm+6 of math.MinInt the definition was not wrapped at all, while every other negative
+// width wraps it at the minimum width 2; Edit("").InsertDefinitionsTable(0,
+// [][2]string{{"a","b c d"}}, math.MinInt) returned "  a  - b c d\n", for -5 "  a  - b\n       c\n       d\n".
+// With the flag off no extreme width is drawn for deftable steps.
+const deftableExtremeWidths = true
+
+func (g *gen) widthDefTable() int {
+	if deftableExtremeWidths {
+		return g.widthPad(40)
+	}
+	return g.width()
+}
+
 func (g *gen) charset() string {
 	switch g.r.Intn(9) {
 	case 8:
@@ -1072,14 +1116,14 @@ func (g *gen) groupCommit(n int) {
 				case 2:
 					st = append(st, fmt.Sprintf("overtype,%d,%s,%s", cur, encInt(g.pos(5)), encText(g.word(mode, 3))))
 				case 3:
-					st = append(st, fmt.Sprintf("wrap,%d,%d,%s", cur, g.width(), g.optsArg(o)))
+					st = append(st, fmt.Sprintf("wrap,%d,%d,%s", cur, g.widthWrap(), g.optsArg(o)))
 				case 4:
 					st = append(st, fmt.Sprintf("collapse,%d,%s", cur, g.optsArg(o)))
 				case 5:
-					st = append(st, fmt.Sprintf("align,%d,%d,%d,%s", cur, 1+g.r.Intn(3), g.width(), g.optsArg(o)))
+					st = append(st, fmt.Sprintf("align,%d,%d,%d,%s", cur, 1+g.r.Intn(3), g.widthPad(40), g.optsArg(o)))
 				case 6:
 					if g.chance(0.5) {
-						st = append(st, fmt.Sprintf("justify,%d,%d,%s", cur, g.width(), g.optsArg(o)))
+						st = append(st, fmt.Sprintf("justify,%d,%d,%s", cur, g.widthPad(40), g.optsArg(o)))
 					} else {
 						st = append(st, fmt.Sprintf("indent,%d,%d,%s", cur, 1+g.r.Intn(2), g.optsArg(o)))
 					}
@@ -1321,6 +1365,12 @@ func (g *gen) groupLayout(n int, which string) {
 			t = g.line(mode, 2) + " " + strings.Repeat("x", L) + " " + g.line(mode, 2)
 			wd = w
 		}
+		switch which { // D20: extreme widths
+		case "wrap":
+			wd = g.xwidth(wd, true, 0)
+		case "justify", "align":
+			wd = g.xwidth(wd, false, clusterCount(t))
+		}
 		switch which {
 		case "collapse":
 			step = "collapse,0," + g.optsArg(o)
@@ -1378,7 +1428,7 @@ func (g *gen) groupTwoCol(n int) {
 		}
 		_ = ps
 		gap := g.gap()
-		w := g.width()
+		w := g.widthPad(40)
 		if g.chance(0.3) {
 			w = gap + 2 + g.r.Intn(8)
 		}
@@ -1434,7 +1484,7 @@ func (g *gen) groupDefTable(n int) {
 				defs[j][1] = g.word(mode, 3) + els + g.word(mode, 3) + ls + g.word(mode, 2)
 			}
 		}
-		g.emit("prog", g.editStep(t, edOpts)+";"+fmt.Sprintf("deftable,0,%s,%s,%d,%s", encInt(g.pos(clusterCount(t))), encDefs(defs), g.width(), arg))
+		g.emit("prog", g.editStep(t, edOpts)+";"+fmt.Sprintf("deftable,0,%s,%s,%d,%s", encInt(g.pos(clusterCount(t))), encDefs(defs), g.widthDefTable(), arg))
 	}
 }
 
@@ -1464,7 +1514,7 @@ func (g *gen) groupTable(n int) {
 			edOpts, _, _ = g.opts(mode)
 			arg = encOpts(o)
 		}
-		g.emit("prog", g.editStep(t, edOpts)+";"+fmt.Sprintf("table,0,%s,%s,%d,%s", encInt(g.pos(clusterCount(t))), encTable(data), g.width(), arg))
+		g.emit("prog", g.editStep(t, edOpts)+";"+fmt.Sprintf("table,0,%s,%s,%d,%s", encInt(g.pos(clusterCount(t))), encTable(data), g.widthPad(40), arg))
 	}
 }
 
@@ -1502,11 +1552,11 @@ func (g *gen) groupOptions2(n int) {
 		var op string
 		switch g.r.Intn(10) {
 		case 0:
-			op = fmt.Sprintf("wrap,%%d,%d,%%s", g.width())
+			op = fmt.Sprintf("wrap,%%d,%d,%%s", g.widthWrap())
 		case 1:
-			op = fmt.Sprintf("justify,%%d,%d,%%s", g.width())
+			op = fmt.Sprintf("justify,%%d,%d,%%s", g.widthPad(40))
 		case 2:
-			op = fmt.Sprintf("align,%%d,%d,%d,%%s", 1+g.r.Intn(3), g.width())
+			op = fmt.Sprintf("align,%%d,%d,%d,%%s", 1+g.r.Intn(3), g.widthPad(40))
 		case 3:
 			op = "collapse,%d,%s"
 		case 4:
@@ -1516,13 +1566,13 @@ func (g *gen) groupOptions2(n int) {
 		case 6:
 			op = fmt.Sprintf("applypara,%%d,%d,%%s", g.r.Intn(6))
 		case 7:
-			op = fmt.Sprintf("twocol,%%d,%s,%s,%s,%d,%d,%s,%%s", encInt(g.pos(4)), encText(g.para(mode, ls, 2)), encText(g.para(mode, ls, 2)), g.gap(), g.width(), encPct(g.pct()))
+			op = fmt.Sprintf("twocol,%%d,%s,%s,%s,%d,%d,%s,%%s", encInt(g.pos(4)), encText(g.para(mode, ls, 2)), encText(g.para(mode, ls, 2)), g.gap(), g.widthPad(40), encPct(g.pct()))
 		case 8:
 			defs := [][2]string{{g.word(mode, 4), g.line(mode, 5)}, {g.word(mode, 4), g.line(mode, 5)}}
-			op = fmt.Sprintf("deftable,%%d,%s,%s,%d,%%s", encInt(g.pos(4)), encDefs(defs), g.width())
+			op = fmt.Sprintf("deftable,%%d,%s,%s,%d,%%s", encInt(g.pos(4)), encDefs(defs), g.widthDefTable())
 		default:
 			data := [][]string{{g.word(mode, 3), g.word(mode, 3)}, {g.word(mode, 3), g.word(mode, 3)}}
-			op = fmt.Sprintf("table,%%d,%s,%s,%d,%%s", encInt(g.pos(4)), encTable(data), g.width())
+			op = fmt.Sprintf("table,%%d,%s,%s,%d,%%s", encInt(g.pos(4)), encTable(data), g.widthPad(40))
 		}
 		st := []string{
 			g.editStep(t, o0),
@@ -1589,11 +1639,11 @@ func (g *gen) groupPool(n int, steps int) {
 			case 6:
 				s = fmt.Sprintf("overtype,%d,%s,%s", src, encInt(g.pos(6)), encText(g.word(mode, 3)))
 			case 7:
-				s = fmt.Sprintf("wrap,%d,%d,%s", src, g.width(), g.optsArg(o))
+				s = fmt.Sprintf("wrap,%d,%d,%s", src, g.widthWrap(), g.optsArg(o))
 			case 8:
-				s = fmt.Sprintf("justify,%d,%d,%s", src, g.width(), g.optsArg(o))
+				s = fmt.Sprintf("justify,%d,%d,%s", src, g.widthPad(40), g.optsArg(o))
 			case 9:
-				s = fmt.Sprintf("align,%d,%d,%d,%s", src, g.r.Intn(4), g.width(), g.optsArg(o))
+				s = fmt.Sprintf("align,%d,%d,%d,%s", src, g.r.Intn(4), g.widthPad(40), g.optsArg(o))
 			case 10:
 				s = fmt.Sprintf("collapse,%d,%s", src, g.optsArg(o))
 			case 11:
@@ -2061,11 +2111,11 @@ func (g *gen) groupProgZ(n int) {
 		var step string
 		switch g.r.Intn(12) {
 		case 0:
-			step = fmt.Sprintf("wrap,0,%d,%s", g.width(), g.optsArg(o))
+			step = fmt.Sprintf("wrap,0,%d,%s", g.widthWrap(), g.optsArg(o))
 		case 1:
-			step = fmt.Sprintf("justify,0,%d,%s", g.width(), g.optsArg(o))
+			step = fmt.Sprintf("justify,0,%d,%s", g.widthPad(40), g.optsArg(o))
 		case 2, 3, 4:
-			step = fmt.Sprintf("align,0,%d,%d,%s", 1+g.r.Intn(3), g.width(), g.optsArg(o))
+			step = fmt.Sprintf("align,0,%d,%d,%s", 1+g.r.Intn(3), g.widthPad(40), g.optsArg(o))
 		case 5:
 			step = "collapse,0," + g.optsArg(o)
 		case 6:
@@ -2073,13 +2123,13 @@ func (g *gen) groupProgZ(n int) {
 		case 7:
 			step = fmt.Sprintf("insert,0,%s,%s", encInt(g.pos(8)), encText(g.word(mode, 3)))
 		case 8:
-			step = fmt.Sprintf("twocol,0,%s,%s,%s,%d,%d,%s,%s", encInt(g.pos(4)), encText(g.para(mode, ls, 2)), encText(g.para(mode, ls, 2)), g.gap(), g.width(), encPct(g.pct()), g.optsArg(o))
+			step = fmt.Sprintf("twocol,0,%s,%s,%s,%d,%d,%s,%s", encInt(g.pos(4)), encText(g.para(mode, ls, 2)), encText(g.para(mode, ls, 2)), g.gap(), g.widthPad(40), encPct(g.pct()), g.optsArg(o))
 		case 9:
 			data := [][]string{{g.word(mode, 3), ""}, {g.word(mode, 2)}, {"", g.word(mode, 3), g.word(mode, 1)}, {}}
-			step = fmt.Sprintf("table,0,%s,%s,%d,%s", encInt(g.pos(4)), encTable(data[:1+g.r.Intn(4)]), g.width(), g.optsArg(o))
+			step = fmt.Sprintf("table,0,%s,%s,%d,%s", encInt(g.pos(4)), encTable(data[:1+g.r.Intn(4)]), g.widthPad(40), g.optsArg(o))
 		case 10:
 			defs := [][2]string{{g.word(mode, 4), g.line(mode, 5)}, {"", ""}}
-			step = fmt.Sprintf("deftable,0,%s,%s,%d,%s", encInt(g.pos(4)), encDefs(defs), g.width(), g.optsArg(o))
+			step = fmt.Sprintf("deftable,0,%s,%s,%d,%s", encInt(g.pos(4)), encDefs(defs), g.widthDefTable(), g.optsArg(o))
 		default:
 			step = fmt.Sprintf("indent,0,%d,%s", g.r.Intn(3), g.optsArg(o))
 		}
